@@ -269,6 +269,20 @@ def match_known(prop, signature):
     return None
 
 
+def load_corpus(prop):
+    """minimised past failures / known findings, run first on every check: corpus/<prop>/*.json"""
+    import glob
+    out = []
+    for f in sorted(glob.glob(os.path.join(VERIF, "corpus", prop, "*.json"))):
+        try:
+            c = json.load(open(f))
+            c["_corpus_file"] = os.path.basename(f)
+            out.append(c)
+        except Exception as e:
+            log(f"bad corpus file {f}: {e}")
+    return out
+
+
 # ------------------------------------------------------------------ check context / verdict
 
 class Check:
@@ -329,6 +343,8 @@ class Check:
             k = match_known(self.prop, sig)
             if k:
                 lines.append(f"KNOWN-FINDING: property={self.prop} {k.get('what', what)}")
+                self.write_replay("known_" + re.sub(r"\W+", "_", sig)[:60],
+                                  {"property": self.prop, "kind": "known-finding", "signature": sig, "what": what, "case": case})
             else:
                 unlisted.append((sig, what, case))
         for sig, what, case in unlisted[:5]:
